@@ -158,7 +158,7 @@ func vfC03Alphabet(thorough bool) []vfOp {
 	for _, p := range []string{"/a", "/b", "/a/a", "/a/b", "/a/a/a"} {
 		a = append(a, vfOp{Op: "mkgroup", Path: p})
 	}
-	for _, p := range []string{"/b", "/a/b", "/a/a/a", "/c"} {
+	for _, p := range []string{"/b", "/a/b", "/a/a/a", "/ç"} {
 		a = append(a, vfOp{Op: "mkds", Path: p, Type: "i32", Dims: []uint64{2}})
 	}
 	// children under a name that may be taken by a dataset (or by nothing)
@@ -168,11 +168,12 @@ func vfC03Alphabet(thorough bool) []vfOp {
 			a = append(a, vfOp{Op: "hardlink", Path: l, Target: t})
 		}
 	}
-	a = append(a, vfOp{Op: "softlink", Path: "/s", Target: "/a"}, vfOp{Op: "softlink", Path: "/a/s", Target: "/dangling"},
-		vfOp{Op: "extlink", Path: "/e", Target: "/obj"}, vfOp{Op: "densegroup", Path: "/dg", Target: "/b"})
+	// (the leaf names "ç", "ş" and "é" are multi-byte UTF-8: byte and character counts differ)
+	a = append(a, vfOp{Op: "softlink", Path: "/s", Target: "/a"}, vfOp{Op: "softlink", Path: "/a/ş", Target: "/dänglïng"},
+		vfOp{Op: "extlink", Path: "/é", Target: "/obj"}, vfOp{Op: "densegroup", Path: "/dg", Target: "/b"})
 	// hard links whose target is a link object or a dense group (their headers grow by the
 	// reference count message like any other object's)
-	for _, t := range []string{"/s", "/e", "/dg"} {
+	for _, t := range []string{"/s", "/é", "/dg"} {
 		a = append(a, vfOp{Op: "hardlink", Path: "/hs", Target: t})
 	}
 	// a nested target whose parent may be missing, a dataset or a group without that child,
